@@ -440,6 +440,8 @@ FsFile(s, t, op, p, res, mode, off, data) ==
             /\ IF res = "fault" THEN Upd(s, [r EXCEPT !.w.st = "failed"]) /\ UNCHANGED tree
                ELSE /\ tree' = PutFile(tree, p, Overlay(Content(p), w.pos, data))
                     /\ Upd(s, [r EXCEPT !.w.pos = @ + Len(data), !.din = SubSeq(@, Len(data) + 1, Len(@))])
+       [] op = "late" ->     \* a held backend call of the worker fails after all
+            /\ w.st = "run" /\ UNCHANGED tree /\ Upd(s, [r EXCEPT !.w.st = "failed"])
        [] op = "read" ->
             /\ w.st = "run" /\ w.fopen /\ w.v = "retr" /\ UNCHANGED tree
             /\ IF res = "fault" THEN Upd(s, [r EXCEPT !.w.st = "failed"]) ELSE Upd(s, r)
